@@ -191,6 +191,15 @@ simple("C15", "exploration",
        batches=(8, 16), timeout=(600, 3000))
 
 
+simple("C17", "exploration",
+       "in-process layer: seeded random fake hwmon trees (1..4 chips with distinct names, fan inputs on random channel subsets of 1..6, temperature inputs on random indices incl. "
+       "features without an input file, pwm controls on all channels, random enumeration ORDER) read by the real hwmon.GetChips() through the gosensors stand-in; per tree 12 fan "
+       "selectors (platform x index | rpmChannel x optional pwmChannel, incl. unknown platform and non-existing index/channel) through UpdateFanConfigFromHwMonControllers and 6 "
+       "sensor selectors through the daemon's InitializeObjects; bound paths compared with a reference resolution; non-trivial = selector of an existing device; distinct by (selector, tree shape, order)",
+       TRUST_L1 + ["the stand-in numbers features like libsensors (by type, then number; names fanN / tempN)", "platform patterns match exactly one chip"],
+       batches=(8, 16))
+
+
 def c14(p, tier, work, t0, replay):
     _src, vh = build_vh(work)
     q = tier == "quick"
